@@ -2,7 +2,7 @@
    Abbreviation laws are stated in THT_f (tsat), hence they hold in heads and bodies; dualities and the mirror symmetry
    are classical (lsat), hence for bodies.  Congruence lifts every law to every sub-formula position of every formula. *)
 From Coq Require Import List Bool Arith Lia.
-Require Import HT TEL Laws.
+Require Import GenPrelude TheoryPrelude FormPrelude FromBodyForm HT TEL Laws BodyForm.
 Section C16.
 Variable A : Type.
 Variable h : nat.
@@ -50,8 +50,21 @@ Theorem C16_congruence : forall (D : forall a b : A, {a = b} + {a <> b}) a r r',
 Proof. exact (congruence A h). Qed.
 Theorem C16_congruence_classical : forall (D : forall a b : A, {a = b} + {a <> b}) a r r', leq A h r r' -> forall p, leq A h (subst A D a r p) (subst A D a r' p).
 Proof. exact (congruence_classical A h). Qed.
+(* ---- the implementation side: create_formula (theory/body.py), table REGENERATED from the source ---- *)
+(* for every operator of the body grammar and every admissible number of arguments, the formula object that create_formula builds has,
+   at every state, the LTLf value of the documented reading of the operator: a ;> b = a & > b, a <; b = < a & b, << p = <* (~ &initial | p),
+   >> p = >* (~ &final | p), n-fold prefixes with 0 > p = p, >? p = &true >? p, >* p = &false >* p, and the plain connectives *)
+Theorem C16_create_formula_builds_the_documented_formulas : forall T, Forall (entry_ok A h T) doc_ops.
+Proof. exact (create_formula_sound A h). Qed.
+Theorem C16_keywords_in_formulas : forall T k, k <= h ->
+  option_map (fun e => fval h e (fun _ => false) (fun _ => false) 0 k) (keyword_gen "initial") = Some (lsat T (LInitial A) k) /\
+  option_map (fun e => fval h e (fun _ => false) (fun _ => false) 0 k) (keyword_gen "final") = Some (lsat T (LFinal A) k) /\
+  option_map (fun e => fval h e (fun _ => false) (fun _ => false) 0 k) (keyword_gen "true") = Some true /\
+  option_map (fun e => fval h e (fun _ => false) (fun _ => false) 0 k) (keyword_gen "false") = Some false.
+Proof. exact (keyword_values A h). Qed.
 End C16.
 Print Assumptions C16_false. Print Assumptions C16_initial. Print Assumptions C16_final. Print Assumptions C16_initially. Print Assumptions C16_finally.
 Print Assumptions C16_nfold_next. Print Assumptions C16_nfold_prev. Print Assumptions C16_nfold0_next. Print Assumptions C16_nfold0_prev.
 Print Assumptions C16_until_unfold. Print Assumptions C16_release_unfold. Print Assumptions C16_dual_wnext. Print Assumptions C16_dual_wprev.
 Print Assumptions C16_dual_release. Print Assumptions C16_dual_trigger. Print Assumptions C16_mirror. Print Assumptions C16_congruence. Print Assumptions C16_congruence_classical.
+Print Assumptions C16_create_formula_builds_the_documented_formulas. Print Assumptions C16_keywords_in_formulas.
